@@ -37,6 +37,7 @@ func init() {
 type Probe struct {
 	mu     sync.Mutex
 	Eff    []Node
+	EffBy  map[int64][]Node // effects per goroutine (concurrent evaluations on one environment)
 	Depths []int
 	Cancel context.CancelFunc
 }
@@ -73,6 +74,10 @@ func installProbes(ns types.EnvType, p *Probe) {
 		n := FromMal(a[0])
 		p.mu.Lock()
 		p.Eff = append(p.Eff, n)
+		if p.EffBy != nil {
+			g := goid()
+			p.EffBy[g] = append(p.EffBy[g], n)
+		}
 		p.mu.Unlock()
 		return a[0], nil
 	}})
